@@ -130,6 +130,23 @@ Section FileStack.
          end) paths acc
     end.
 
+  (* the nesting-depth premise of the termination theorems ([Spec.depth_le]),
+     decided: the directories below [p] nest at most [k] deep (a directory
+     that cannot be listed counts as a leaf, as in `add_files`).  Not part of
+     the mirror: it is run by the driver on every project so that the premise
+     of C19_run_project_fuel_ok is evaluated, not assumed (third audit) *)
+  Fixpoint depth_le_b (k : nat) (p : path) : bool :=
+    if is_dir p then
+      match read_dir p with
+      | None => true
+      | Some names =>
+        match k with
+        | O => false
+        | S k' => forallb (fun n => depth_le_b k' (join p n)) names
+        end
+      end
+    else true.
+
   (* ---- FileStack::new ---- *)
   Definition new (fuel : nat) (paths libs : list path) (reports : list report)
       : outcome (file_stack * list report) :=
@@ -374,6 +391,10 @@ Definition canonical_paths (d : fs_data) : list spath :=
   omap (fun kv => kv.2) (fs_canon d).
 
 Definition dir_fuel : nat := 64.
+
+(* the two premises of the theorems about [run_project], decided on the table *)
+Definition depth_ok_b (d : fs_data) (argv : list spath) : bool :=
+  forallb (depth_le_b (d_is_dir d) (d_read_dir d) s_join 63) argv.
 
 Definition run_project (d23 : bool) (d : fs_data) (argv libs : list spath) : outcome (parse_state (path:=spath)) :=
   parse_files (d_canon d) (d_is_dir d) (d_is_file d) (d_read_dir d) s_join s_parent s_file_name s_ext_circom
